@@ -91,6 +91,13 @@ def do_test(ids):
                 r = sh("bin/check %s --tier quick" % p, cwd=VERIF, env=env)
                 first = [l for l in r.stdout.splitlines() if l.startswith(("VIOLATION", "UNDECIDED", "CHECKER-ERROR"))][:2]
                 out[p] = {"exit": r.returncode, "s": round(time.time() - t0, 1), "lines": [l[:400] for l in first]}
+            # the thorough tier (bounded native families) for the changes the quick tier does not report
+            if not any(o["exit"] == 1 for o in out.values()):
+                for p in meta.get("thorough_check", []):
+                    t0 = time.time()
+                    r = sh("bin/check %s --tier thorough" % p, cwd=VERIF, env=env, timeout=7200)
+                    first = [l for l in r.stdout.splitlines() if l.startswith(("VIOLATION", "UNDECIDED", "CHECKER-ERROR"))][:2]
+                    out[p + "/thorough"] = {"exit": r.returncode, "s": round(time.time() - t0, 1), "lines": [l[:400] for l in first]}
             results[sid] = out
             det = [p for p, o in out.items() if o["exit"] == 1]
             print(sid, "DETECTED by " + ",".join(det) if det else "MISSED", json.dumps(out)[:900])
